@@ -1159,6 +1159,16 @@ def r5_8(ctx):
     m = ctx.repo.mod(TEXT_MOD)
     units_check(ctx, m.fn("Text.truncate"), {"max_width"}, floor=2)
     units_check(ctx, m.fn("Text.align"), {"width"}, floor=1)
+    # align() first limits the text to the requested width: every normal path of Text.align passes self.truncate(<width>) - without
+    # it a text wider than the width keeps its length (the padding is then negative and skipped) and the aligned title / cell
+    # overflows the space it was laid out for
+    fa = m.fn("Text.align")
+    ga = cfgmod.build(fa.node)
+    wparam = fa.params[2] if len(fa.params) > 2 else "width"
+    truncs = {nd.id for nd in ga.stmt_nodes() if nd.kind == "stmt" and nd.stmt is not None and any(
+        isinstance(c_, ast.Call) and norm(c_.func) in ("self.truncate", "self.set_length") and c_.args and norm(c_.args[0]) == wparam for c_ in ast.walk(nd.stmt))}
+    ctx.check(bool(truncs) and ga.exit not in ga.reach([ga.entry], avoid=truncs), fa.fq, f"self.truncate({wparam})", fa.where, "align() limits the text to the width on every path",
+              f"Text.align can return without having called self.truncate({wparam}): a text wider than the requested width is neither cut nor padded and stays wider than the space it was aligned for")
     # the other methods that take a width in cells: whatever they compare it with must be a cell measure too (a `len(line) <= width`
     # short cut in wrap() skips the division of a line of double-width characters that does not fit)
     # (rstrip_end compares len(self) with its width: with wide characters it strips fewer blanks than it could and truncate() crops
